@@ -23,9 +23,9 @@ func TestMain(m *testing.M) { vt.Main(m, "C04") }
 // 0 value, 1 nil, 2 raises ValueErr, 3 raises StopIterErr, 4 raises a user error kind.
 const prelude = `MyErr := Err.bear({_name: "MyErr"})
 P := {
-  f: m{|a| raise ValueErr.new("boom#{.v}") if .k == 2; raise StopIterErr.new("stop#{.v}") if .k == 3; raise MyErr.new("mine#{.v}") if .k == 4; nil if .k == 1 else .v * 10 + a},
+  f: m{|a| return 1.try.{|x| x / 0}.err if .k == 5; raise ValueErr.new("boom#{.v}") if .k == 2; raise StopIterErr.new("stop#{.v}") if .k == 3; raise MyErr.new("mine#{.v}") if .k == 4; nil if .k == 1 else .v * 10 + a},
   _missing: m{|name| raise ValueErr.new("boom#{.v}") if .k == 2; raise StopIterErr.new("stop#{.v}") if .k == 3; raise MyErr.new("mine#{.v}") if .k == 4; nil if .k == 1 else [name, .v, \0[2:]]},
-  g: m{|e, a| raise ValueErr.new("boom#{e.v}") if e.k == 2; raise StopIterErr.new("stop#{e.v}") if e.k == 3; raise MyErr.new("mine#{e.v}") if e.k == 4; nil if e.k == 1 else .bro({k: 0, v: .v + e.v + a})},
+  g: m{|e, a| return nil.try.{|x| raise TypeErr.new("held#{e.v}")}.err if e.k == 5; raise ValueErr.new("boom#{e.v}") if e.k == 2; raise StopIterErr.new("stop#{e.v}") if e.k == 3; raise MyErr.new("mine#{e.v}") if e.k == 4; nil if e.k == 1 else .bro({k: 0, v: .v + e.v + a})},
 }
 MyInt := Int.bear({'+: m{|o| 1000}, '*: m{|o| 7}, S: m{"my"}, inc: m{100}, '<=>: m{|o| 0}})
 MyStr := Str.bear({len: m{-1}, '+: m{|o| "mine"}, S: m{"mystr"}})
@@ -359,7 +359,7 @@ func genObjElems(t *rapid.T) []string {
 			elems[i] = "nil"
 			continue
 		}
-		k := rapid.SampledFrom([]int{0, 0, 0, 1, 1, 2, 3, 4}).Draw(t, "k")
+		k := rapid.SampledFrom([]int{0, 0, 0, 1, 1, 2, 3, 4, 5}).Draw(t, "k")
 		elems[i] = fmt.Sprintf("P.bear({k: %d, v: %d})", k, i+1)
 	}
 	return elems
